@@ -143,7 +143,7 @@ func (w *World) StaticIDs(harness string) (asserts, reach []string) {
 					continue
 				}
 				switch callee.Name() {
-				case "verifAssert":
+				case "verifAssert", "verifCheck":
 					if c, ok := cc.Args[1].(*ssa.Const); ok {
 						sa[constString(c)] = true
 					}
@@ -259,11 +259,11 @@ var apiNames = map[string]bool{
 	"verifI8": true, "verifI16": true, "verifI32": true, "verifI64": true, "verifInt": true,
 	"verifBytes": true, "verifString": true, "verifChoice": true, "verifAssume": true, "verifAssert": true,
 	"verifReach": true, "verifTag": true, "verifObserve": true, "verifParam": true, "verifRegister": true,
-	"verifSymbolic": true, "verifIsConcrete": true,
+	"verifSymbolic": true, "verifIsConcrete": true, "verifCheck": true, "verifFlushChecks": true, "verifAnd": true, "verifOr": true,
 	// environment
 	"verifFSSnapshot": true, "verifFSRestore": true, "verifFSCutToSynced": true, "verifFSReset": true,
 	"verifTick": true, "verifYield": true, "verifNumTickers": true, "verifLockHeld": true,
-	"verifMapOrderChoice": true, "verifFSFileLen": true, "verifFSMarkSynced": true,
+	"verifMapOrderChoice": true, "verifFSFileLen": true, "verifFSMarkSynced": true, "verifFSCacheLoad": true, "verifFSCacheSave": true,
 }
 
 func isAPIName(n string) bool { return apiNames[n] }
